@@ -196,7 +196,7 @@ def exprKind : Expr → NodeKind
   | .and _ _ => .andNode
   | .or _ _ => .orNode
   | .cmp _ _ _ | .isIn _ _ | .substr _ _ _ => .comparator
-  | .attr _ => .attribute
+  | .attr _ | .strAttr _ _ => .attribute
   | .not _ => .notNode
   | .exist _ _ => .existsNode
   | .all _ _ => .forAllNode
